@@ -182,6 +182,31 @@ def r2(run, tier, table, levelb):
                         "model": None, "obs": {"uniform": r["obs"]["uniform"], "opt2": {"totals": t, "lines": []}}})
     judge(run, clirecs, lambda r: "cli", "cli", family=1)
     run.note("family_kernels_through_cli", len(clirecs))
+    # long kernels through the CLI (the report is produced from the very rows the bottleneck is read from): whatever the
+    # schedule, the bottleneck cannot lie below cycles / ports, and must not lie above the uniform split's
+    full = next(k for k in range(7) if len(pc.SUBSETS3[k]) == 3)
+    singles = [k for k in range(7) if len(pc.SUBSETS3[k]) == 1]
+    longs = []
+    for reps, extra in ((21, 2), (34, 0), (47, 5)):
+        forms = [full] * reps + [singles[0]] * extra
+        cycles = reps + extra
+        longs.append(("long-%d-%d" % (reps, extra), pc.render_kernel(forms), cycles, max(reps / 3.0 + extra, 0)))
+    got = pc.cli_many(home, "zen1", [(c, t) for c, t, _, _ in longs], 3)
+    for cid, text, cycles, uniform in longs:
+        t = got[cid]
+        if isinstance(t, dict):
+            run.fail("C02:exception:cli:long:%s" % t["error"].split(":")[0], "%s: osaca --arch (synthetic family model) fails: %s" % (cid, t["error"]),
+                     {"text": text})
+            continue
+        bott = max(t) / float(pc.UNIT)
+        run.add_eval(1)
+        tol = 0.011 if bott < 10 else 0.051     # the report shows two decimals below 10 cycles, one from 10 on
+        if bott < cycles / 3.0 - tol:
+            run.fail("C02:below-optimum:cli:long", "%s: the report shows a bottleneck of %.2f cy for %d cycles of work on 3 ports (at least %.2f)" % (
+                cid, bott, cycles, cycles / 3.0), {"text": text, "totals_units": t})
+        elif bott > uniform + tol:
+            run.fail("C02:worse-than-uniform:cli:long", "%s: the report shows a bottleneck of %.2f cy, the uniform split gives %.2f" % (cid, bott, uniform),
+                     {"text": text, "totals_units": t})
     import shutil
     shutil.rmtree(home, ignore_errors=True)
     k = sorted(table)[len(table) // 2]
